@@ -70,7 +70,7 @@ def run(rep, tier, args):
     rep.assumptions += [
         "coarse MC: 2 replicas x 3 nodes x heights<=2, epochs<=3, <=2 blocks per replica, <=1 crash per replica, "
         "<=1 abandoned write in flight; two-replica graphs are explored to a BFS depth bound (quick 11/12 quorum "
-        "operations, thorough 13/14), the single-replica graph completely",
+        "operations, thorough 12/12 with late promote/release as well), the single-replica graph completely (quick) or to depth 22 with 2 epochs (thorough)",
         "fine per-RPC interleavings are sampled by -simulate, not exhausted",
         "lease expiry, reply loss, late execution and node restarts are scenario events of the fake Redis nodes "
         "(virtual clock); real Redis semantics of SET NX PX / INCR / XADD / XREVRANGE are assumed as documented; "
